@@ -38,7 +38,17 @@ own statements because they are the only tie for what they say. -/
 theorem regenerated_facts_extracted :
     Gen.postProcessDimAware_extracted = true ∧ Gen.postProcessRecoversMoved_extracted = true ∧
     Gen.postProcessOutsWriters_extracted = true ∧ Gen.writeAtomicSteps_extracted = true ∧
-    Gen.postProcessForkDirs_extracted = true ∧ Gen.allOutsWriters_extracted = true := by decide
+    Gen.postProcessForkDirs_extracted = true ∧ Gen.allOutsWriters_extracted = true ∧
+    Gen.postProcessMappedKeyCheck_extracted = true ∧ Gen.postProcessIllegalKeyIsError_extracted = true := by decide
+
+/-- The TRANSLATED source terms the ties of Props/C13Tie.lean are stated against
+(`Gen.tr_GetOutFilename`; `Gen.tr_IsLegalUnixFilename` for `legalName`) were
+really translated from the working tree on this run, not taken from a
+committed fall-back.  (Behavioural tie, independent of the translator: the
+names stream calls the real `GetOutFilename` on ~500 run-time keys per run and
+compares with `outFilename`.) -/
+theorem translated_ties_extracted :
+    Gen.tr_GetOutFilename_extracted = true ∧ Gen.tr_IsLegalUnixFilename_extracted = true := by decide
 
 /-! ### result_wellformed -/
 
@@ -560,7 +570,75 @@ example : wfParams [("report", "", .file "txt"), ("parts", "", .arr (.file "") 0
     keysSeparable ["ps", "outs"]
       ([("lib/A", J.obj []), ("lib_A", J.obj []), ("plain", J.obj [])].map Prod.fst) = true := by decide
 
-/-- Negative witness, key → directory (what `path.Join` does with keys that are
+/-- Regenerated obligation (F24, repaired by a `fix:` commit): in the current
+source the loop over the fork keys of a top-level call mapped over a typed map
+starts with `if err := syntax.IsLegalUnixFilename(k); err != nil { errs =
+append(errs, …); …; continue }` — a key that is not a legal file name is
+refused with an error, its fork is not moved and its record entry is kept
+(model: `postMapChecked`); and (F25) `moveOutDir`'s branch for such a key of a
+typed-map VALUE appends to `errs` as well, so the dropped entry is a reported
+post-processing failure, not a silent one. -/
+theorem mapped_keys_checked :
+    Gen.postProcessMappedKeyCheck_extracted = true ∧ Gen.postProcessMappedKeyCheck = true ∧
+    Gen.postProcessIllegalKeyIsError_extracted = true ∧ Gen.postProcessIllegalKeyIsError = true := by decide
+
+/-- What the repaired branch does with ANY key set: the rewritten record has
+the same fork keys in the same order; the entry of every refused key (not a
+legal file name) is in it UNCHANGED; and the file-system effect is exactly the
+effect of processing the legal forks alone (`legalForks`), each in `outs/<key>`.
+When all keys are legal the repaired branch is the old one. -/
+theorem mapped_illegal_key_is_refused (ps : Path) (params : List (String × String × Ty)) (top : Path)
+    (kvs : List (String × J)) (fs : FS) :
+    (postMapChecked Gen.postProcessDimAware ps params top kvs fs).1.map Prod.fst = kvs.map Prod.fst ∧
+    (∀ kv ∈ kvs, legalName kv.1 = false →
+      kv ∈ (postMapChecked Gen.postProcessDimAware ps params top kvs fs).1) ∧
+    (postMapChecked Gen.postProcessDimAware ps params top kvs fs).2 =
+      (postMap Gen.postProcessDimAware ps params top (legalForks kvs) fs).2 ∧
+    ((∀ kv ∈ kvs, legalName kv.1 = true) →
+      postMapChecked Gen.postProcessDimAware ps params top kvs fs =
+        postMap Gen.postProcessDimAware ps params top kvs fs) :=
+  ⟨postMapChecked_keys _ ps params top kvs fs, fun kv hm hk => postMapChecked_refused _ ps params top kvs fs kv hm hk,
+    postMapChecked_fs _ ps params top kvs fs, postMapChecked_eq_of_legal _ ps params top kvs fs⟩
+
+/-- `dest_injective` for the repaired branch, for EVERY key set (the keys of a
+JSON object are distinct; no separability hypothesis): the `moveOutFile` calls
+of all processed forks have pairwise incomparable, hence distinct,
+destinations, and the file-system effect is fork after fork over the legal
+forks. -/
+theorem dest_injective_mapped_checked (params : List (String × String × Ty)) (top : Path) (kvs : List (String × J))
+    (h : wfParams params = true) (hnd : (kvs.map Prod.fst).Nodup) :
+    (leavesMap params top (legalForks kvs)).Pairwise LeafIncomp ∧
+    ((leavesMap params top (legalForks kvs)).map Leaf.dest).Nodup ∧
+    (∀ ps fs, (postMapChecked Gen.postProcessDimAware ps params top kvs fs).2 =
+      runForks ps params top (legalForks kvs) fs) := by
+  have hs : keysSeparable top ((legalForks kvs).map Prod.fst) = true :=
+    legal_keys_separable top _ (legalForks_keys_nodup kvs hnd) (legalForks_keys_legal kvs)
+  obtain ⟨a, b, _, d⟩ := dest_injective_mapped params top (legalForks kvs) h hs
+  exact ⟨a, b, fun ps fs => by rw [postMapChecked_fs, d]⟩
+
+/-- With the repair NOTHING is materialised outside outs/, whatever the keys:
+every destination of every processed fork lies below `outs/<k>` for a legal
+file name `k` (so not in outs/ itself, not in the pipestance directory, not in
+another fork's directory). -/
+theorem mapped_nothing_outside_outs (params : List (String × String × Ty)) (top : Path) (kvs : List (String × J))
+    (h : wfParams params = true) :
+    ∀ l ∈ leavesMap params top (legalForks kvs), ∃ k, legalName k = true ∧ Under (top ++ [k]) l.dest :=
+  leavesMap_legal_under params top kvs h
+
+/-- the keys of F24 under the repaired branch: `..` and `a/` are refused (entries unchanged, their
+files stay where they are, nothing appears in the pipestance directory), `a` is materialised -/
+example :
+    let r := postMapChecked true ["ps"] [("r", "", .file "")] ["ps", "outs"]
+      [("..", .obj [("r", .str "/ps/MK/fork0/files/f")]), ("a", .obj [("r", .str "/ps/MK/fork1/files/f")]),
+       ("a/", .obj [("r", .str "/ps/MK/fork0/files/f")])] exFS2
+    r.1.map (fun kv => (kv.1, recStr kv.2 "r")) =
+      [("..", some "/ps/MK/fork0/files/f"), ("a", some "/ps/outs/a/r"), ("a/", some "/ps/MK/fork0/files/f")] ∧
+    r.2.get ["ps", "r"] = none ∧ r.2.get ["ps", "outs", "a", "r"] = some (.file 2) ∧
+    r.2.get ["ps", "MK", "fork0", "files", "f"] = some (.file 1) ∧
+    refusedKeys [("..", J.null), ("a", J.null), ("a/", J.null)] = ["..", "a/"] := by decide
+
+/-- Negative witness FOR THE CODE BEFORE THE F24 REPAIR (`postMap`; like
+`multidim_not_moved_before_fix` for F5), key → directory (what `path.Join` does with keys that are
 not legal file names; the harness replays each line on the real code): the
 keys `a`, `a/`, `./a`, `a/.`, `x/../a` share ONE directory; `""` and `"."`
 are outs/ itself; `".."` is the pipestance directory (outside outs/);
@@ -577,7 +655,7 @@ theorem mapped_key_dirs_not_injective :
     keysSeparable ["ps", "outs"] ["a", "a/"] = false ∧ keysSeparable ["ps", "outs"] ["a", "a/b"] = false ∧
     keysSeparable ["ps", "outs"] ["", "x"] = false ∧ keysSeparable ["ps", "outs"] [".."] = false := by decide
 
-/-- Negative witness (known finding `C13:mapped-key-dirs-overlap`), whole run:
+/-- Negative witness for the code BEFORE the F24 repair (`postMap`), whole run:
 `map call … split {"a": …, "a/": …}`, one `file r` output per fork, fork `a`
 processed first.  Both keys use the directory outs/a.  Fork `a/` finds its
 destination outs/a/r occupied, so `moveOutFile` takes its "already moved"
@@ -592,7 +670,7 @@ theorem mapped_colliding_keys_second_skipped :
     r.2.get ["ps", "outs", "a", "r"] = some (.file 1) ∧
     r.2.get ["ps", "MK", "fork1", "files", "f"] = some (.file 2) := by decide
 
-/-- Negative witness, a key that leaves outs/: with the single fork key `..`
+/-- Negative witness for the code BEFORE the F24 repair (`postMap`), a key that leaves outs/: with the single fork key `..`
 the output is materialised in the pipestance directory itself, not under outs/. -/
 theorem mapped_dotdot_key_escapes_outs :
     let r := postMap true ["ps"] [("r", "", .file "")] ["ps", "outs"]
